@@ -30,7 +30,7 @@ import tskit
 
 from lib import gen
 from lib.harness import case_rng
-from lib.model import NODE_IS_SAMPLE, NULL, RowModel, sort_edges_key, sorted_copy
+from lib.model import NULL, RowModel, sorted_copy
 from lib.tsk import from_tables, to_tables, to_ts
 
 ID = "C17"
@@ -475,7 +475,6 @@ def run_case(case, ctx):
             mx = max([x[2] for x in expm.nodes], default=NULL)
             expm.populations = [(b"",)] * (mx + 1)
             ctx.count("population-backfill")
-        how = "layout"
         ctx.count("layout:load_text")
         for c in dropped_desc:
             ctx.feature("dropped:" + c)
@@ -534,8 +533,8 @@ def run_parser(ctx, rng, name, text, exp, mode, kept, m, relaxed=False):
         ctx.violation(f"parse{'-relaxed' if relaxed else ''}/{name}/raises", f"{PARSERS[name]} raised {type(e).__name__}: {e} on layout {mode} "
                       f"with columns {kept}", detail)
         return
-    if "table" in kw and table is not kw["table"]:
-        ctx.violation(f"parse/{name}/table-arg", f"{PARSERS[name]}(table=t) returned a different table", detail)
+    if "table" in kw:
+        table = kw["table"]  # documented: rows are written into the given table (return value left open)
     tc2 = tskit.TableCollection(1)
     getattr(tc2, name).replace_with(table)
     got = getattr(from_tables(tc2), name)
